@@ -26,7 +26,11 @@ Plain(l) == [l |-> l, code |-> 200]
 NetLetters  == {"badstatus", "badheader", "hugeheader", "closebefore", "closeduring", "refused", "timeout"}
 BodyLetters == {"trunc", "badchunk"}
 OddLetters  == {"early", "empty", "big", "notjson", "jsonarr", "nothtml", "shorthdr", "nohdr"}
+\* "hv": a well-formed 200 whose X-Tok header value has exactly `code` bytes (0 = empty / absent)
+ValueLens   == {0, 1, 2, 3, 5, 12}
+HvLetter(n) == [l |-> "hv", code |-> n]
 HttpLetters == {StatusLetter(c) : c \in StatusCodes} \cup {Plain(l) : l \in NetLetters \cup BodyLetters \cup OddLetters}
+               \cup {HvLetter(n) : n \in ValueLens}
 
 \* attributes of the response the client gets to see
 NetFails(x)   == x.l \in NetLetters                      \* no response at all: transport error
@@ -34,10 +38,10 @@ BodyFails(x)  == x.l \in BodyLetters                     \* status and headers a
 Code(x)       == IF x.l = "status" THEN x.code ELSE 200
 \* the body is a JSON object in which $.tok and $.list[0] exist ("jsonarr" is valid JSON, but an array)
 BodyJSON(x)   == CASE x.l = "status" -> ~NoBody(x.code)
-                   [] x.l \in {"early", "big", "shorthdr", "nohdr"} -> TRUE
+                   [] x.l \in {"early", "big", "shorthdr", "nohdr", "hv"} -> TRUE
                    [] OTHER -> FALSE
 BodyHasTok(x) == BodyJSON(x) \/ x.l \in {"notjson", "jsonarr"}          \* the byte string "tok" occurs in the body
-HdrTok(x)     == CASE x.l \in {"shorthdr"} -> "short" [] x.l = "nohdr" -> "absent" [] OTHER -> "long"
+HdrTok(x)     == CASE x.l \in {"shorthdr", "hv"} -> "short" [] x.l = "nohdr" -> "absent" [] OTHER -> "long"
 
 \* gRPC: the status the server returns / what happens to the call
 GrpcCodes   == 0..16
@@ -47,6 +51,29 @@ GrpcOK(x)   == (x.l = "code" /\ x.code = 0) \/ x.l = "gbig"
 \* ---------------------------------------------------------------- postprocessors of step "a" of a scenario gun
 Posts == {"none", "jsonpath", "header_substr", "xpath", "assert", "all"}
 Has(p, q) == p = q \/ p = "all"
+
+\* ---------------------------------------------------------------- var/header modifiers on response-derived values
+\* `Header|substr(a[,b])` on a value of n bytes.  Documented / pinned by the repository's tests: a negative a counts
+\* from the end, b <= 0 (and the one-argument form, b = 0) counts from the end, an end beyond the value is the end
+\* of the value, start > end are swapped.  That pins the result whenever the resolved start lies inside the value
+\* and the resolved end is not before its beginning; for every other combination the statement only demands
+\* "some value, never a failure of the run".
+Bounds(n) == {0 - n - 7, 0 - n - 1, 0 - n, -1, 0, 1, n - 1, n, n + 1, n + 7}
+SubstrCases(n) == {<<a, b, TRUE>> : a \in Bounds(n), b \in Bounds(n)} \cup {<<a, 0, FALSE>> : a \in Bounds(n)}
+ResolveFrom(n, a) == IF a < 0 THEN n + a ELSE a
+ResolveTo(n, b, hasb) == IF ~hasb \/ b <= 0 THEN n + (IF hasb THEN b ELSE 0) ELSE b
+Pinned(n, a, b, hasb) == ResolveFrom(n, a) \in 0..n /\ ResolveTo(n, b, hasb) >= 0
+SubstrExpected(n, a, b, hasb) ==
+    LET f  == ResolveFrom(n, a)
+        t0 == ResolveTo(n, b, hasb)
+        t  == IF t0 > n THEN n ELSE t0
+        lo == IF f > t THEN t ELSE f
+        hi == IF f > t THEN f ELSE t
+    IN [start |-> lo, len |-> hi - lo]
+\* design-level sanity of the function above: total and inside the value on the whole enumerated space
+SubstrTotal == \A n \in ValueLens : \A c \in SubstrCases(n) :
+                  Pinned(n, c[1], c[2], c[3]) =>
+                      LET e == SubstrExpected(n, c[1], c[2], c[3]) IN e.start >= 0 /\ e.len >= 0 /\ e.start + e.len <= n
 
 \* a sample class: proto, whether an error is attached, whether the step counts as failed (scenario: __EMPTY__ tag)
 Smp(proto, err, failed) == [proto |-> proto, err |-> err, failed |-> failed]
